@@ -3,7 +3,7 @@
 from __future__ import annotations
 
 import warnings
-from typing import Callable, Optional, Tuple, Union
+from typing import Callable, List, Optional, Tuple, Union
 
 import torch
 from jaxtyping import Float
@@ -43,8 +43,18 @@ class CholLinearOperator(RootLinearOperator):
                 chol = TriangularLinearOperator(chol, upper=True)
             else:
                 raise ValueError("chol must be either lower or upper triangular")
-        super().__init__(chol)
+        # `upper` must reach LinearOperator.__init__: clone / detach / to / type and the representation tree rebuild the
+        # operator as self.__class__(*self._args, **self._kwargs), which would otherwise silently reset it to False
+        super(RootLinearOperator, self).__init__(chol, upper=upper)
+        self.root = chol
         self.upper = upper
+
+    def _expand_batch(
+        self: Float[LinearOperator, "... M N"], batch_shape: Union[torch.Size, List[int]]
+    ) -> Float[LinearOperator, "... M N"]:
+        if len(batch_shape) == 0:
+            return self
+        return self.__class__(self.root._expand_batch(batch_shape), upper=self.upper)
 
     @property
     def _chol_diag(self: Float[LinearOperator, "*batch N N"]) -> Float[torch.Tensor, "... N"]:
